@@ -266,9 +266,11 @@ class C13(Sim):
             L.log = []
             L.shadow = S.build(L.spec_now)
             L.restarted = True
-            d = EO.snap_diff(EO.snapshot(L.engine), EO.snapshot(L.shadow))
+            d = EO.snap_diff(EO.snapshot(L.engine, flags=False), EO.snapshot(L.shadow, flags=False))
             if d:
                 return viol("restarted_engine_differs_from_fresh_build", i, diff=d, after=why)
+            if EO.stale_rule_flags(L.engine):
+                st.hit("outcomes.rule_flags_survive_restart")
             return None
 
         for i, op in enumerate(trace["ops"]):
@@ -327,10 +329,11 @@ class C13(Sim):
                 if r_real != r_shadow:
                     v = viol("engine_and_fresh_twin_disagree_on_exception", i, engine=str(r_real), twin=str(r_shadow), role=role, opkind=k)
                 else:
-                    snap = EO.snapshot(L.engine)
-                    d = EO.snap_diff(snap, EO.snapshot(L.shadow))
+                    d = EO.snap_diff(EO.snapshot(L.engine, flags=False), EO.snapshot(L.shadow, flags=False))
                     if d:
                         v = viol("engine_state_differs_from_fresh_twin", i, diff=d, role=role, opkind=k, restarted=L.restarted)
+                    elif EO.snapshot(L.engine) != EO.snapshot(L.shadow):
+                        st.hit("outcomes.rule_flags_differ_from_fresh_twin")
                 if v is None and k == "process" and r_real is None and eligible_history_free(L.spec_now):
                     # oracle 1: outputs depend only on the inputs of this step
                     fresh = S.build(L.spec_now)
@@ -382,8 +385,8 @@ class C13(Sim):
                     csnap = EO.snapshot(c)
                     if src_after != src_before:
                         v = viol("copy_changed_the_source", i, diff=EO.snap_diff(src_before, src_after))
-                    elif csnap != src_after:
-                        v = viol("copy_differs_from_source", i, diff=EO.snap_diff(src_after, csnap))
+                    elif EO.snapshot(c, flags=False) != EO.snapshot(L.engine, flags=False):
+                        v = viol("copy_differs_from_source", i, diff=EO.snap_diff(EO.snapshot(L.engine, flags=False), EO.snapshot(c, flags=False)))
                     else:
                         p = EO.graph_problem(c)
                         if p:
@@ -394,7 +397,7 @@ class C13(Sim):
                                list(L.log), L.depth + 1)
                     new.restarted = L.restarted
                     if v is None:
-                        d = EO.snap_diff(csnap, EO.snapshot(new.shadow))
+                        d = EO.snap_diff(EO.snapshot(c, flags=False), EO.snapshot(new.shadow, flags=False))
                         if d:
                             v = viol("copy_differs_from_fresh_replay", i, diff=d)
                     new.cached = csnap
